@@ -12,7 +12,7 @@ import ast
 import json
 import os
 
-from pyvc.api import contract, lemma, custom, Int, Bool, Str, Opt, Rec, SeqOf, TupleOf, implies, call, mk
+from pyvc.api import contract, lemma, custom, Int, Bool, Str, Opt, Rec, SeqOf, TupleOf, implies, call, mk, ih
 from contracts._common import ViolationT, PathT, path_str, py_unparse
 from contracts._nodes import TSNode, PyNode
 from contracts import c12_core  # noqa: F401  (contracts of the core builders these sites call)
@@ -841,3 +841,343 @@ class DivisionCheckConvert:
 
     def ensures_rule(result):
         return result.rule_id == "lbyl.division-check"
+
+
+# ================================================================== method-property: node -> candidate -> violation
+from pyvc.api import uf  # noqa: E402
+
+MA = L + "method_property/python_analyzer.py::"
+ML = L + "method_property/linter.py::"
+PropertyCandidateT = Rec("PropertyCandidate", cls=MA + "PropertyCandidate",
+                         pycls="src.linters.method_property.python_analyzer:PropertyCandidate",
+                         method_name=Str, class_name=Str, line=Int, column=Int, is_get_prefix=Bool)
+MethodAnalyzerT = Rec("PythonMethodAnalyzer", cls=MA + "PythonMethodAnalyzer", candidates=SeqOf(PropertyCandidateT))
+mp_is_candidate = uf("mp_is_property_candidate", [PyNode], Bool)
+
+
+@contract(MA + "PythonMethodAnalyzer._is_property_candidate", props=["C12"], types=dict(self=MethodAnalyzerT, method=PyNode),
+          returns=Bool,
+          assumed="the rule's decision predicate (nine syntactic exclusion tests; the documented-example half of C19, not "
+                  "decided here): C12 only uses that WHICH method is flagged is a function of the method node")
+class MPIsPropertyCandidate:
+    def value(method):
+        return mp_is_candidate(method)
+
+
+def candidate_of(method, class_name):
+    return mk(PropertyCandidateT, method_name=method.name, class_name=class_name, line=method.lineno,
+              column=method.col_offset, is_get_prefix=method.name.startswith("get_") and len(method.name) > 4)
+
+
+@contract(MA + "PythonMethodAnalyzer._check_method", props=["C12", "C19"],
+          types=dict(self=MethodAnalyzerT, method=PyNode, class_name=Str), modifies=["self.candidates"])
+class MPCheckMethod:
+    def requires(self, method, class_name):
+        return isinstance(method, ast.FunctionDef)
+
+    def ensures_records_the_def_position_once(self, method, class_name, old):
+        # at most one candidate per method, positioned at the method's own `def` (lineno / col_offset of the node)
+        return self.candidates == old.self.candidates + ([candidate_of(method, class_name)] if mp_is_candidate(method) else [])
+
+
+MPRuleT = Rec("MethodPropertyRule", cls=ML + "MethodPropertyRule", _violation_builder=MPBuilderT)
+
+
+@contract(ML + "MethodPropertyRule._create_violation", props=["C12"],
+          types=dict(self=MPRuleT, candidate=PropertyCandidateT, context=CtxT), returns=ViolationT)
+class MPRuleCreateViolation:
+    def ensures_location(candidate, context, result):
+        return at(result, path_or(context.file_path, ""), candidate.line, candidate.column)
+
+    def ensures_names_the_method(self, candidate, result):
+        return result.message == mp_message(candidate.method_name, candidate.is_get_prefix, candidate.class_name)
+
+
+# ================================================================== stateless-class: node -> ClassInfo
+SA = SC + "python_analyzer.py::"
+sc_stateless = uf("sc_is_stateless", [PyNode, Int], Bool)
+
+
+@contract(SA + "_is_stateless", props=["C12"], types=dict(class_node=PyNode, min_methods=Int), returns=Bool,
+          assumed="the rule's decision predicate (constructor / attributes / bases / method count; C19's documented-example "
+                  "half, not decided here): C12 only uses that it is a function of the class node and the threshold")
+class SCIsStateless:
+    def value(class_node, min_methods):
+        return sc_stateless(class_node, min_methods)
+
+
+def sc_collect(s: SeqOf(PyNode), m: Int) -> SeqOf(ClassInfoT):
+    """One ClassInfo per stateless ClassDef of the walk, in walk order, positioned at the `class` header node."""
+    if len(s) == 0:
+        return []
+    if isinstance(s[0], ast.ClassDef) and sc_stateless(s[0], m):
+        return [mk(ClassInfoT, name=s[0].name, line=s[0].lineno, column=s[0].col_offset)] + sc_collect(s[1:], m)
+    return sc_collect(s[1:], m)
+
+
+@contract(SA + "_find_stateless_classes", props=["C12", "C19"],
+          types=dict(tree=PyNode, min_methods=Int, results=SeqOf(ClassInfoT), node=PyNode), returns=SeqOf(ClassInfoT))
+class SCFindStatelessClasses:
+    def requires(tree, min_methods):
+        return tree is not None
+
+    def ensures_each_class_once_at_its_header(tree, min_methods, result):
+        return result == sc_collect(tree.walk, min_methods)
+
+    def inv0(tree, min_methods, results, rest):
+        return sc_collect(tree.walk, min_methods) == results + sc_collect(rest, min_methods)
+
+
+# ================================================================== print-statements: node -> (node, parent, line) -> violation
+import z3  # noqa: E402
+from pyvc.api import Opaque  # noqa: E402
+from pyvc.ex_call import external  # noqa: E402
+from pyvc.ty import VNode  # noqa: E402
+
+PP = L + "print_statements/python_analyzer.py::"
+PT = L + "print_statements/typescript_analyzer.py::"
+PL = L + "print_statements/linter.py::"
+ParentMapT = Opaque("ParentMap")
+
+
+@external("ParentMap.get")
+def _parent_map_get(ex, args, kwargs, lineno):
+    """parent_map.get(node) of the dict built by build_parent_map: an uninterpreted (nullable) node-valued function."""
+    f = z3.Function("uf.parent_map_get", ParentMapT.sort(), PyNode.sort(), PyNode.sort())
+    ex.ufs_used.add("parent_map.get(node): uninterpreted")
+    return VNode(f(args[0].t, args[1].t), PyNode)
+
+
+def is_print(node):
+    """print(...) or builtins.print(...)"""
+    return (isinstance(node.func, ast.Name) and node.func.id == "print") or (
+        isinstance(node.func, ast.Attribute) and node.func.attr == "print"
+        and isinstance(node.func.value, ast.Name) and node.func.value.id == "builtins")
+
+
+@contract(PP + "is_print_call", props=["C12", "C19"], types=dict(node=PyNode), returns=Bool,
+          inline=["_is_simple_print", "_is_builtins_print"])
+class IsPrintCall:
+    def requires(node):
+        return isinstance(node, ast.Call)
+
+    def value(node):
+        return is_print(node)
+
+
+PrintCallT = TupleOf(PyNode, PyNode, Int)
+PyPrintAnalyzerT = Rec("PythonPrintStatementAnalyzer", cls=PP + "PythonPrintStatementAnalyzer",
+                       print_calls=SeqOf(PrintCallT), parent_map=ParentMapT)
+
+
+parent_map_get = uf("parent_map_get", [ParentMapT, PyNode], PyNode)
+
+
+def print_calls_of(s: SeqOf(PyNode), pm: ParentMapT) -> SeqOf(PrintCallT):
+    """(node, recorded parent, line) for each print Call node of a walk, in walk order, once each; the line is the
+    lineno of that very node."""
+    if len(s) == 0:
+        return []
+    if isinstance(s[0], ast.Call) and is_print(s[0]):
+        return [(s[0], parent_map_get(pm, s[0]), s[0].lineno)] + print_calls_of(s[1:], pm)
+    return print_calls_of(s[1:], pm)
+
+
+@contract(PP + "PythonPrintStatementAnalyzer._collect_print_calls", props=["C12", "C19"],
+          types=dict(self=PyPrintAnalyzerT, tree=PyNode, node=PyNode, parent=PyNode, line_number=Int),
+          modifies=["self.print_calls"])
+class CollectPrintCalls:
+    def requires(self, tree):
+        return tree is not None
+
+    def ensures_each_print_call_once_with_its_own_line(self, tree, old):
+        return self.print_calls == old.self.print_calls + print_calls_of(tree.walk, self.parent_map)
+
+    def inv0(self, tree, old, rest):
+        return old.self.print_calls + print_calls_of(tree.walk, self.parent_map) == \
+            self.print_calls + print_calls_of(rest, self.parent_map)
+
+
+@lemma(props=["C12"], types=dict(s=SeqOf(PyNode), pm=ParentMapT, i=Int), name="print-call-line-is-lineno-of-its-node")
+def print_line_is_node_line(s, pm, i):
+    """Every triple produced by the collector pairs a print Call node with that node's own lineno."""
+    r = print_calls_of(s, pm)
+    if len(s) == 0:
+        return len(r) == 0
+    ih(print_line_is_node_line, s[1:], pm, i - 1)
+    ih(print_line_is_node_line, s[1:], pm, i)
+    return implies(0 <= i and i < len(r), r[i][2] == r[i][0].lineno and isinstance(r[i][0], ast.Call) and is_print(r[i][0]))
+
+
+# ------------------------------------------------------------------ TypeScript console.* collector (tree-sitter)
+from contracts.c01_ts_base import ts_text, ts_first_child  # noqa: E402  (contracts of TypeScriptBaseAnalyzer helpers)
+
+TsPrintAnalyzerT = Rec("TypeScriptPrintStatementAnalyzer", cls=PT + "TypeScriptPrintStatementAnalyzer")
+ConsoleCallT = TupleOf(TSNode, Str, Int)
+
+
+def console_member(node):
+    return ts_first_child(node.children, "member_expression")
+
+
+def console_object_ok(func_node):
+    obj = ts_first_child(func_node.children, "identifier")
+    return obj is not None and ts_text(obj) == "console"
+
+
+def console_name(node):
+    """Text of the property_identifier of the call's member expression ('' if there is none)."""
+    m = ts_first_child(console_member(node).children, "property_identifier")
+    return "" if m is None else ts_text(m)
+
+
+def is_console_call(node, methods):
+    """`console.<m>(...)` with <m> one of the configured methods."""
+    return (console_member(node) is not None and console_object_ok(console_member(node))
+            and ts_first_child(console_member(node).children, "property_identifier") is not None
+            and console_name(node) in methods)
+
+
+@contract(PT + "TypeScriptPrintStatementAnalyzer._find_object_node", props=["C12", "C19"],
+          types=dict(self=TsPrintAnalyzerT, member_expr=TSNode), returns=TSNode)
+class TsFindObjectNode:
+    def requires(member_expr):
+        return member_expr is not None
+
+    def value(member_expr):
+        return ts_first_child(member_expr.children, "identifier")
+
+    def inv0(member_expr, rest):
+        return ts_first_child(member_expr.children, "identifier") == ts_first_child(rest, "identifier")
+
+
+@contract(PT + "TypeScriptPrintStatementAnalyzer._is_console_object", props=["C12", "C19"],
+          types=dict(self=TsPrintAnalyzerT, func_node=TSNode), returns=Bool)
+class TsIsConsoleObject:
+    def requires(func_node):
+        return func_node is not None
+
+    def value(func_node):
+        return console_object_ok(func_node)
+
+
+@contract(PT + "TypeScriptPrintStatementAnalyzer._get_matching_method", props=["C12", "C19"],
+          types=dict(self=TsPrintAnalyzerT, func_node=TSNode, methods=SeqOf(Str)), returns=Opt(Str))
+class TsGetMatchingMethod:
+    def requires(func_node, methods):
+        return func_node is not None
+
+    def ensures(func_node, methods, result):
+        m = ts_first_child(func_node.children, "property_identifier")
+        return (result is not None) == (m is not None and ts_text(m) in methods) and \
+            implies(result is not None, result == ts_text(m))
+
+
+@contract(PT + "TypeScriptPrintStatementAnalyzer._extract_console_method", props=["C12", "C19"],
+          types=dict(self=TsPrintAnalyzerT, node=TSNode, methods=SeqOf(Str)), returns=Opt(Str))
+class TsExtractConsoleMethod:
+    def requires(node, methods):
+        return node is not None
+
+    def ensures(node, methods, result):
+        return (result is not None) == is_console_call(node, methods) and \
+            implies(result is not None, result == console_name(node))
+
+
+def console_calls(n: TSNode, methods: SeqOf(Str)) -> SeqOf(ConsoleCallT):
+    """Pre-order list of (node, method, line) for the console calls in the subtree of n: each matching node ONCE,
+    with line = start row of that node + 1 (tree-sitter rows are 0-based)."""
+    return ([(n, console_name(n), n.start_point[0] + 1)] if n.type == "call_expression" and is_console_call(n, methods) else []) \
+        + console_calls_seq(n.children, methods)
+
+
+def console_calls_seq(s: SeqOf(TSNode), methods: SeqOf(Str)) -> SeqOf(ConsoleCallT):
+    if len(s) == 0:
+        return []
+    return console_calls(s[0], methods) + console_calls_seq(s[1:], methods)
+
+
+@contract(PT + "TypeScriptPrintStatementAnalyzer._collect_console_calls", props=["C12", "C19"],
+          types=dict(self=TsPrintAnalyzerT, node=TSNode, methods=SeqOf(Str), calls=SeqOf(ConsoleCallT),
+                     method_name=Opt(Str), line_number=Int), modifies=["calls"])
+class TsCollectConsoleCalls:
+    def requires(self, node, methods, calls):
+        return node is not None
+
+    def ensures_each_console_call_once_at_its_row(self, node, methods, calls, old):
+        return calls == old.calls + console_calls(node, methods)
+
+    def inv0(self, node, methods, calls, old, rest):
+        # (`methods` is passed to the recursive call, so the loop rule forgets it: the invariant keeps it fixed)
+        return methods == old.methods and \
+            old.calls + console_calls(node, methods) == calls + console_calls_seq(rest, methods)
+
+
+# ================================================================== the construction-site scan
+SITE_CALLEES = ("Violation", "ViolationInfo", "build_from_params")
+BASELINE = os.path.join(os.path.dirname(os.path.abspath(__file__)), "c12_sites_baseline.json")
+
+
+def scan_sites(repo_root):
+    """Every call `Violation(...)` / `ViolationInfo(...)` / `<x>.build_from_params(...)` under src/, as
+    (site id, relpath::qualname of the enclosing function, line). Site id = function key # callee # ordinal."""
+    sites = []
+    src = os.path.join(repo_root, "src")
+    for dp, dns, fns in os.walk(src):
+        dns.sort()
+        for fn in sorted(fns):
+            if not fn.endswith(".py"):
+                continue
+            path = os.path.join(dp, fn)
+            rel = os.path.relpath(path, repo_root)
+            with open(path, encoding="utf-8") as fh:
+                tree = ast.parse(fh.read())
+            counts = {}
+
+            def walk(node, qual):
+                for ch in ast.iter_child_nodes(node):
+                    if isinstance(ch, (ast.FunctionDef, ast.AsyncFunctionDef, ast.ClassDef)):
+                        walk(ch, qual + [ch.name])
+                        continue
+                    if isinstance(ch, ast.Call):
+                        f = ch.func
+                        nm = f.id if isinstance(f, ast.Name) else f.attr if isinstance(f, ast.Attribute) else None
+                        if nm in SITE_CALLEES:
+                            key = f"{rel}::{'.'.join(qual) if qual else '<module>'}"
+                            k = counts.get((key, nm), 0)
+                            counts[(key, nm)] = k + 1
+                            sites.append((f"{key}#{nm}#{k}", key, ch.lineno))
+                    walk(ch, qual)
+            walk(tree, [])
+    return sites
+
+
+@custom("c12-site-scan", props=["C12"])
+def c12_site_scan(ctx):
+    """One obligation per construction site whose enclosing function is under a (verified, not assumed) contract, plus
+    one obligation stating that no site outside the committed baseline is without a contract. Sites listed in the
+    baseline as uncovered are NOT claimed: they are named in the note."""
+    from pyvc import api
+    with open(BASELINE, encoding="utf-8") as fh:
+        known_uncovered = set(json.load(fh)["not_under_contract"])
+    obs, new_uncovered, listed_uncovered = [], [], []
+    for sid, key, line in scan_sites(ctx["repo"]):
+        c = api.REGISTRY.get(key)
+        if c is not None and not c.assumed and any(n.startswith("ensures") or n == "value" for n in c.methods):
+            obs.append({"name": f"c12-site-scan/site:{sid}", "kind": "post", "verdict": "discharged", "solver": "scan",
+                        "ms": 0.0, "carries": True, "lineno": line,
+                        "note": f"enclosing function under contract {c.cls.__module__}.{c.cls.__name__} (props {c.props})"})
+        elif sid in known_uncovered:
+            listed_uncovered.append(sid)
+        else:
+            new_uncovered.append(sid)
+    note = (f"{len(obs)} construction sites under contract; NOT under contract (baseline, not claimed): "
+            + (", ".join(sorted(listed_uncovered)) or "none"))
+    if new_uncovered:
+        obs.append({"name": "c12-site-scan/no-new-site-without-contract", "kind": "post", "verdict": "unknown", "solver": "scan",
+                    "ms": 0.0, "carries": True, "lineno": 0,
+                    "note": "new construction site(s) without a contract: " + ", ".join(sorted(new_uncovered)) + "; " + note})
+    else:
+        obs.append({"name": "c12-site-scan/no-new-site-without-contract", "kind": "post", "verdict": "discharged",
+                    "solver": "scan", "ms": 0.0, "carries": True, "lineno": 0, "note": note})
+    return obs
